@@ -329,3 +329,51 @@ def discarded_mask(ctx, rule, m, only=None, floor=1):
                       f"{sorted(set(hands_on))}: the weights can no longer be filtered with the values", fi.where)
     if n < floor:
         ctx.bad(rule, "mask-discarded:sites", f"expected at least {floor} extractor call(s) with a discarded mask, found {n} (anchor moved?)", "")
+
+
+def lossy_preallocation(ctx, rule, funcs, key):
+    """Coordinate columns are combined by promoting constructors (concatenate / stack); storing one input into an array
+    pre-allocated with ANOTHER input's element type (`np.empty(..., dtype=x.dtype)`, `np.empty_like(x)`) silently casts it
+    (float angles into an integer radius array)."""
+    bad = []
+    n = 0
+    for fi in funcs:
+        ctx.saw(fi)
+        allocs = {}
+        for st in ast.walk(fi.node):
+            if isinstance(st, (ast.Assign, ast.AnnAssign)) and st.value is not None and isinstance(st.value, ast.Call):
+                tgt = st.targets[0] if isinstance(st, ast.Assign) else st.target
+                c = st.value
+                if not isinstance(tgt, ast.Name):
+                    continue
+                fn = U(c.func).split(".")[-1]
+                src = None
+                if fn in ("empty", "zeros", "ones", "full"):
+                    d = kwarg(c, "dtype")
+                    if d is not None and isinstance(d, ast.Attribute) and d.attr == "dtype":
+                        src = d.value
+                elif fn in ("empty_like", "zeros_like", "ones_like", "full_like") and c.args and kwarg(c, "dtype") is None:
+                    src = c.args[0]
+                if src is not None:
+                    root = src
+                    while isinstance(root, (ast.Attribute, ast.Subscript)):
+                        root = root.value
+                    if isinstance(root, ast.Name):
+                        allocs[tgt.id] = (root.id, U(st)[:70])
+        n += 1
+        for st in ast.walk(fi.node):
+            if isinstance(st, ast.Assign) and isinstance(st.targets[0], ast.Subscript):
+                base = st.targets[0].value
+                while isinstance(base, ast.Subscript):
+                    base = base.value
+                if isinstance(base, ast.Name) and base.id in allocs:
+                    root, how = allocs[base.id]
+                    others = {x.id for x in ast.walk(st.value) if isinstance(x, ast.Name)} - {root, base.id, "np", "numpy", "math"}
+                    params = set(fi.params())
+                    others = {o for o in others if o in params or o in {a for a in allocs}} | \
+                        {o for o in others if any(isinstance(d, (ast.Assign, ast.AnnAssign)) and U(getattr(d, "target", None) or d.targets[0]) == o
+                                                  for d in ast.walk(fi.node) if isinstance(d, (ast.Assign, ast.AnnAssign)))}
+                    if others:
+                        bad.append(f"{fi.qualname}: `{U(st)[:60]}` after `{how}` casts {sorted(others)} to the element type of `{root}`")
+    ctx.check(not bad and n >= 1, rule, key, f"{n} function(s): no input is stored into an array typed after another input",
+              "; ".join(bad[:2]), funcs[0].where if funcs else "")
